@@ -5,6 +5,8 @@ CONSTANTS
   MaxReplies = 1
   LeakOnSendError = FALSE
   MatchCreation = TRUE
+  OtherPeer = FALSE
+  ClearOnAnyDisconnect = FALSE
   SeqCallers = FALSE
   RemoveOnTimeout = FALSE
 CHECK_DEADLOCK FALSE
